@@ -273,7 +273,7 @@ impl LanguageServer for Server {
     }
 
     fn did_change(&mut self, params: DidChangeTextDocumentParams) -> Self::NotifyResult {
-        if let Some(change) = params.content_changes.first() {
+        if let Some(change) = params.content_changes.last() {
             self.set_file_content(&params.text_document.uri, &change.text);
             self.update_diagnostics();
         }
